@@ -102,7 +102,8 @@ def get_offset_fit_error(x, y):
     0.0
     """
     mean = np.mean(y - x)
-    return np.sqrt(sum(np.square(x + mean - y)))
+    # (squared moduli: the squares of complex deviations can cancel one another)
+    return np.sqrt(sum(np.square(np.abs(x + mean - y))))
 
 def get_equals_fit_error(x, y):
     """
@@ -110,7 +111,7 @@ def get_equals_fit_error(x, y):
     Arguments:
         x, y: compatible numpy arrays
     """
-    return np.sqrt(sum(np.square(x - y)))
+    return np.sqrt(sum(np.square(np.abs(x - y))))
 
 class LinearComparer(CorrelatedComparer):
     """
